@@ -3,7 +3,7 @@
    atoms the generated expression contains, contradictory branches by lia, leaves by ring -- so harmless
    rewrites of the C++ pass and semantic changes do not. *)
 From Coq Require Import QArith Qabs String List Bool ZArith Lia Lqa.
-From IPV.C02 Require Import Inv StepTable AccIR.
+From IPV.C02 Require Import Inv Model StepTable AccIR.
 From IPV.Gen Require Import Gen_C02_Step.
 Import ListNotations.
 Open Scope Q_scope.
@@ -145,3 +145,102 @@ Lemma acc_reaction_calc : acc_spec "reaction_calc" gen_acc
   [(T_ELT, 1%Z, V "dlocal0");
    (T_LOCAL, 0%Z, ASub (V "dlocal0") (V "iter(cxxReaction.Get_reactantList).second"))].
 Proof. solve_acc. Qed.
+
+(* ---------------------------------------------------------------- guards of the accumulation statements *)
+(* valuation of the atoms of add_surface's conditions for a surface of type t, diffuse-layer type d, new_def nd *)
+Definition surf_env (t : stype) (d : dltype) (nd hp hw : bool) (s : string) : bool :=
+  if String.eqb s "cxxSurface.Get_type==DDL" then match t with DDL => true | _ => false end
+  else if String.eqb s "cxxSurface.Get_type==CCM" then match t with CCM => true | _ => false end
+  else if String.eqb s "cxxSurface.Get_type==CD_MUSIC" then match t with CD_MUSIC => true | _ => false end
+  else if String.eqb s "cxxSurface.Get_type==NO_EDL" then match t with NO_EDL => true | _ => false end
+  else if String.eqb s "cxxSurface.Get_type==UNKNOWN_DL" then match t with UNKNOWN_DL => true | _ => false end
+  else if String.eqb s "cxxSurface.Get_dl_type==NO_DL" then match d with NO_DL => true | _ => false end
+  else if String.eqb s "cxxSurface.Get_dl_type==BORKOVEK_DL" then match d with BORKOVEK_DL => true | _ => false end
+  else if String.eqb s "cxxSurface.Get_dl_type==DONNAN_DL" then match d with DONNAN_DL => true | _ => false end
+  else if String.eqb s "cxxSurface.Get_new_def" then nd
+  else if String.eqb s hp_atom then hp
+  else if String.eqb s hw_atom then hw
+  else false.
+
+Definition route_b (hp hw : bool) (t : target) : bool :=
+  match t with T_H => hp | T_O => negb hp && hw | T_TOT => negb hp && negb hw | _ => true end.
+
+(* the specification: under which surface types each statement of add_surface must execute
+   (exactly the conditions of Model.add_surface / Model.inv_surface) *)
+Definition surf_expected (t : stype) (d : dltype) (nd hp hw : bool) (tg : target) (e : aexp) : bool :=
+  if aexp_eqb e (AVar "cxxSurfaceCharge.Get_charge_balance") then is_edl t
+  else if aexp_eqb e (AVar "cxxSurfaceComp.Get_charge_balance") then is_no_edl t
+  else if aexp_eqb e (AVar "iter(cxxSurfaceCharge.Get_diffuse_layer_totals).second")
+       then is_edl t && has_dl d && negb nd && route_b hp hw tg
+  else if aexp_eqb e (AVar "iter(cxxSurfaceComp.Get_totals).second") then route_b hp hw tg
+  else false.
+
+(* every electrostatic surface type (DDL, CCM, CD_MUSIC) contributes its plane charges to cb_x, NO_EDL its site
+   charges, the diffuse layer its totals when present and not new -- for ALL types, not just the sampled ones *)
+Lemma guard_add_surface : forall t d nd hp hw,
+  forallb (fun a => Bool.eqb (geval (surf_env t d nd hp hw) (g_guard a))
+                             (surf_expected t d nd hp hw (g_target a) (g_exp a)))
+          (gaccs_of "add_surface" gen_guard) = true /\
+  length (gaccs_of "add_surface" gen_guard) = 8%nat.
+Proof. intros t d nd hp hw. split; [destruct t, d, nd, hp, hw; vm_compute; reflexivity | vm_compute; reflexivity]. Qed.
+
+Definition exch_env (nd hp hw : bool) (s : string) : bool :=
+  if String.eqb s "cxxExchange.Get_new_def" then nd
+  else if String.eqb s hp_atom then hp
+  else if String.eqb s hw_atom then hw
+  else false.
+
+Definition exch_expected (nd hp hw : bool) (tg : target) (e : aexp) : bool :=
+  if aexp_eqb e (AVar "cxxExchComp.Get_charge_balance") then negb nd
+  else if aexp_eqb e (AVar "iter(cxxExchange.Get_exchange_comps[].Get_totals).second") then route_b hp hw tg
+  else false.
+
+Lemma guard_add_exchange : forall nd hp hw,
+  forallb (fun a => Bool.eqb (geval (exch_env nd hp hw) (g_guard a)) (exch_expected nd hp hw (g_target a) (g_exp a)))
+          (gaccs_of "add_exchange" gen_guard) = true /\
+  length (gaccs_of "add_exchange" gen_guard) = 4%nat.
+Proof. intros nd hp hw. split; [destruct nd, hp, hw; vm_compute; reflexivity | vm_compute; reflexivity]. Qed.
+
+Ltac env_cases env := repeat match goal with |- context [env ?s] => destruct (env s) end.
+
+Ltac forall_list tac :=
+  match goal with |- Forall _ ?l => let v := eval vm_compute in l in change l with v end;
+  repeat (apply Forall_cons; [tac | ]); apply Forall_nil.
+
+(* H goes to total_h_x, O to total_o_x, everything else to master->total: in every add_* function *)
+Definition routed_entries : list gacc :=
+  filter (fun a => is_route_target (g_target a) && negb (String.eqb (g_fn a) "add_solution")) gen_guard.
+
+Lemma routing_all : Forall routing_ok routed_entries /\ (24 <= length routed_entries)%nat.
+Proof.
+  split.
+  - forall_list ltac:(let env := fresh "env" in intro env;
+                      cbn [geval g_guard g_target route_cond]; unfold hp_atom, hw_atom;
+                      env_cases env; cbn [negb andb orb]; intro H; first [reflexivity | discriminate H]).
+  - vm_compute. repeat constructor.
+Qed.
+
+(* pure phases / solid solutions: the phase is debited (Set_moles) under exactly the condition under which the
+   solution is credited *)
+Definition moles_guard (f : string) (l : list gacc) : option gexp :=
+  match filter (fun a => target_eqb (g_target a) T_MOLES) (gaccs_of f l) with
+  | [a] => Some (g_guard a)
+  | _ => None
+  end.
+
+Definition debit_credit (f : string) : Prop :=
+  exists gm, moles_guard f gen_guard = Some gm /\
+  forall env, Forall (fun a => geval env (g_guard a) = geval env gm && route_cond env (g_target a))
+                     (filter (fun a => is_route_target (g_target a)) (gaccs_of f gen_guard)).
+
+Ltac solve_debit_credit :=
+  eexists; split; [vm_compute; reflexivity|];
+  let env := fresh "env" in intro env;
+  forall_list ltac:(cbn [geval g_guard g_target route_cond]; unfold hp_atom, hw_atom;
+                    env_cases env; reflexivity).
+
+Lemma debit_credit_pp : debit_credit "add_pp_assemblage".
+Proof. solve_debit_credit. Qed.
+
+Lemma debit_credit_ss : debit_credit "add_ss_assemblage".
+Proof. solve_debit_credit. Qed.
